@@ -1025,3 +1025,46 @@ func (c *Ctx) OriginsIP(v ssa.Value, depth int) []ssa.Value {
 	}
 	return out
 }
+
+// OriginsThrough is Origins that also looks through calls to unexported helpers of the same
+// package: the leaves of such a call are the leaves of what the helper returns (the result index
+// in question), with the helper's parameters replaced by the leaves of the arguments at this call.
+func (c *Ctx) OriginsThrough(v ssa.Value, depth int) []ssa.Value {
+	var out []ssa.Value
+	for _, l := range c.Origins(v, 0) {
+		call, idx := callOfResult(l)
+		if call == nil || depth >= 3 {
+			out = append(out, l)
+			continue
+		}
+		callee := call.Call.StaticCallee()
+		if callee == nil || len(callee.Blocks) == 0 || callee.Pkg == nil || call.Parent() == nil || callee.Pkg != call.Parent().Pkg || token.IsExported(callee.Name()) {
+			out = append(out, l)
+			continue
+		}
+		expanded := false
+		for _, b := range callee.Blocks {
+			ret, ok := b.Instrs[len(b.Instrs)-1].(*ssa.Return)
+			if !ok || idx >= len(ret.Results) {
+				continue
+			}
+			for _, rl := range c.OriginsThrough(unspill(ret.Results[idx]), depth+1) {
+				if p, isP := rl.(*ssa.Parameter); isP && p.Parent() == callee {
+					pi := paramIndex(p)
+					args := call.Call.Args
+					if pi >= 0 && pi < len(args) {
+						out = append(out, c.OriginsThrough(args[pi], depth+1)...)
+						expanded = true
+						continue
+					}
+				}
+				out = append(out, rl)
+				expanded = true
+			}
+		}
+		if !expanded {
+			out = append(out, l)
+		}
+	}
+	return out
+}
